@@ -27,7 +27,7 @@ def shapes(tier, rng):
         upper=[False, True],
         user=["none", "user", "userpw"],
         hostk=["name", "mixed", "ipv4", "ipv6", "ipv6mixed"],
-        port=["none", "default", "otherdefault", "custom"],
+        port=["none", "default", "otherdefault", "custom", "zero"],
         path=list(PATH_IN),
         query=list(QUERY_IN),
         frag=[False, True],
@@ -47,7 +47,7 @@ def shapes(tier, rng):
 
 
 def port_of(s):
-    return {"none": None, "default": DEFAULT[s["scheme"]], "otherdefault": 443 if DEFAULT[s["scheme"]] == 80 else 80, "custom": 8080}[s["port"]]
+    return {"none": None, "default": DEFAULT[s["scheme"]], "otherdefault": 443 if DEFAULT[s["scheme"]] == 80 else 80, "custom": 8080, "zero": 0}[s["port"]]
 
 
 def concretise(s):
@@ -105,7 +105,7 @@ def observe(s):
         u = httpcore.URL(raw)
         o["scheme"] = u.scheme.decode("latin1")
         o["host"] = u.host.decode("latin1")
-        o["port"] = u.port or 0
+        o["port"] = -1 if u.port is None else u.port
         o["target"] = tokenise(u.target)
         org = u.origin
         o["oscheme"] = org.scheme.decode("latin1")
@@ -117,7 +117,7 @@ def observe(s):
         except Exception as e:
             o["roundtrip"] = "raises:" + type(e).__name__
     except Exception as e:  # noqa
-        return {"scheme": "raises:" + type(e).__name__, "host": "", "port": 0, "target": [], "oscheme": "", "ohost": "", "oport": 0, "roundtrip": "", "hosthdr": []}
+        return {"scheme": "raises:" + type(e).__name__, "host": "", "port": -1, "target": [], "oscheme": "", "ohost": "", "oport": 0, "roundtrip": "", "hosthdr": []}
     # the Host header as synthesised by the request API, read off the wire
     net = SimNet(World(default=lambda rec: H11Peer()))
     pool = httpcore.ConnectionPool(network_backend=SimBackend(net), ssl_context=FakeSSLContext())
